@@ -30,7 +30,7 @@ const childOnlyName = daemonName + "-registered-in-the-re-executed-process-only"
 // entered through daemon.Run() in init(); the "caller" role (a short-lived process that calls Launch
 // and exits) is entered from TestMain.
 func init() {
-	for _, n := range daemonNames {
+	for _, n := range append(append([]string{}, daemonNames...), oddNames...) {
 		n := n
 		daemon.Register(n, func() { daemonMain(n) })
 	}
@@ -47,6 +47,10 @@ func init() {
 
 // several handlers under several names: Launch(name) must start the handler registered under that very name
 var daemonNames = []string{daemonName, daemonName + "-b", daemonName + "-c", daemonName + "-d"}
+
+// names are strings: one with a blank at either end, in other letter case or with a tab inside is a name of its own,
+// next to the handler registered under the plain spelling
+var oddNames = []string{daemonName + " ", " " + daemonName, "C20-Daemon", daemonName + "\t-b", daemonName + "\n"}
 
 func daemonMain(self string) {
 	if os.Getenv("C20_CRASH") != "" {
@@ -207,6 +211,7 @@ type kase struct {
 	shortLived       bool // the handler returns right after Done(): Launch still reports the pid it ran under
 	ignoresSigint    bool // the caller child runs with SIGINT ignored (nohup, background job)
 	rendezvous       bool // concurrent launches only: every daemon waits (up to 3 s) for its peers to have started before it calls Done()
+	oddNames         bool // the handlers asked for are registered under names with blanks at the edges, other letter case, a tab or newline
 	stopAfterDone    bool // the daemon stops itself (SIGSTOP) right after Done(); it is continued once Launch has returned
 	stopCont         bool // the daemon is stopped and continued (SIGSTOP / SIGCONT) a few times before it reaches Done()
 	detach           int  // before Done() the handler calls 1: setsid(), 2: setpgid(0, 0)
@@ -218,6 +223,9 @@ type kase struct {
 func (k kase) name(i int) string {
 	if k.childOnly && i == 0 {
 		return childOnlyName
+	}
+	if k.oddNames {
+		return oddNames[(i+k.concurrent)%len(oddNames)]
 	}
 	if k.distinctNames {
 		return daemonNames[i%len(daemonNames)]
@@ -263,6 +271,9 @@ func (k kase) String() string {
 	}
 	if k.stopAfterDone {
 		s += " daemonIsStoppedRightAfterDone"
+	}
+	if k.oddNames {
+		s += " handlerNamesWithBlanksAndCase"
 	}
 	if k.detach > 0 {
 		s += []string{"", " handlerCallsSetsidBeforeDone", " handlerCallsSetpgidBeforeDone"}[k.detach]
@@ -753,6 +764,7 @@ func TestGenerated(t *testing.T) {
 		// (not for a daemon that has put itself into a process group of its own: a stopped member of a group that becomes
 		// orphaned when the intermediate process exits is hung up by the kernel - its own doing, not the launch's)
 		k.stopAfterDone = !k.nested && !k.shortLived && k.detach == 0 && rapid.IntRange(0, 5).Draw(t, "daemonStoppedAfterDone") == 0
+		k.oddNames = rapid.IntRange(0, 5).Draw(t, "oddHandlerNames") == 0
 		k.execs = !k.shortLived && k.doneFrom == 0 && rapid.IntRange(0, 4).Draw(t, "daemonExecsAfterDone") == 0
 		k.childOnly = !k.afterFailed && rapid.IntRange(0, 4).Draw(t, "handlerKnownToTheReexecutedProcessOnly") == 0
 		msg := runCase(k)
@@ -801,6 +813,9 @@ func TestGenerated(t *testing.T) {
 		}
 		if k.stopAfterDone {
 			ev.Label("daemon_stopped_right_after_Done")
+		}
+		if k.oddNames {
+			ev.Label("handler_names_with_blanks_case_tab_newline")
 		}
 		if k.rendezvous && k.concurrent > 1 {
 			ev.Label("daemons_wait_for_each_other_before_Done")
